@@ -56,7 +56,7 @@ def gen_quals(rng, mode, n):
         return None
     if mode == 'tri':
         return [rng.choice([10, 20, 30]) for _ in range(n)]
-    return [rng.randint(2, 41) for _ in range(n)]
+    return [rng.choice([0, 0, 1]) if rng.random() < 0.1 else rng.randint(2, 41) for _ in range(n)]     # incl. quality 0 ('!')
 
 
 def gen_mate(rng, ref, start, length, rev, qmode, qeq, err, gaps=True):
@@ -74,35 +74,43 @@ def gen_mate(rng, ref, start, length, rev, qmode, qeq, err, gaps=True):
     return mate
 
 
-def gen_molecule(rng, ref, origin, chrom, same_start=False, max_frags=6):
+def gen_molecule(rng, ref, origin, chrom, same_start=False, max_frags=6, force_rev=None):
     """One CHIC molecule: every fragment's first mate starts at (about) the same place; second mates land at varying
     distances, which produces covered blocks separated by gaps of many sizes."""
-    rev = rng.random() < 0.4
+    rev = rng.random() < 0.4 if force_rev is None else force_rev
     n = rng.choice([1, 1, 1, 2, 2, 3, 3, 4, 5, 6][:max(1, min(10, max_frags * 2))])
     n = min(n, max_frags)
     qmode = rng.choices(['equal', 'tri', 'any'], [0.55, 0.35, 0.10])[0]
     qeq = rng.choice([10, 20, 30, 30, 37, 40])
     err = rng.choice([0.0, 0.05, 0.15, 0.3])
     gaps = rng.random() < 0.5
+    nomd = rng.random() < 0.1
     frags = []
     l1 = rng.randint(5, 25)
     for k in range(n):
-        la = l1 if same_start else rng.randint(5, 25)
+        la = l1 if same_start else (rng.randint(1, 3) if rng.random() < 0.08 else rng.randint(5, 25))
         if not rev:
             s1 = origin if same_start else origin + rng.randint(0, 3)
         else:
             s1 = origin - la if same_start else origin - la - rng.randint(0, 3)
         r1 = gen_mate(rng, ref, s1, la, rev, qmode, qeq, err, gaps and not same_start)
-        lb = rng.randint(5, 25)
-        d = rng.choice([0, 1, 2, 5, 10, 11, 30, 60, 301, 350]) if rng.random() < 0.7 else -rng.randint(1, 10)
+        lb = rng.randint(1, 3) if rng.random() < 0.08 else rng.randint(5, 25)
+        d = rng.choice([0, 1, 2, 3, 4, 5, 10, 11, 30, 60, 300, 301, 350])   # == and == +1 of every max_N_span used if rng.random() < 0.7 else -rng.randint(1, 10)
         if not rev:
             s2 = r1['start'] + molgen.ref_len(r1['cigar']) + d
         else:
             s2 = r1['start'] - d - lb - 4
-        r2 = gen_mate(rng, ref, max(1, s2), lb, not rev, qmode, qeq, err, gaps)
+        r2 = gen_mate(rng, ref, min(max(0, s2), len(ref) - lb - 8), lb, not rev, qmode, qeq, err, gaps)
         f = {'form': 'pair', 'r1': r1, 'r2': r2}
-        if rng.random() < 0.25:
+        x = rng.random()
+        if x < 0.25:
             f = {'form': 'r1none', 'r1': r1}
+        elif x < 0.30 and not same_start:
+            f = {'form': 'r2unmapped', 'r1': r1}       # half-mapped pair: the unmapped mate covers nothing
+        if nomd:
+            for mt in (f.get('r1'), f.get('r2')):
+                if mt is not None:
+                    mt['nomd'] = True                    # source reads without the optional MD tag
         frags.append(f)
     return {'chrom': chrom, 'frags': frags, 'strand': rev,
             'sample': 'cell%d' % rng.randint(1, 3), 'umi': ''.join(rng.choice('ACGT') for _ in range(4)), 'bc': 'ACGTAC'}
@@ -159,7 +167,7 @@ class Env:
         reads = molgen.build_reads(self.hdr, self.ref, mol['chrom'], 'site', mol['frags'][0], tags=read_tags(mol))
         return self.CHICFragment(reads, assignment_radius=100000, umi_hamming_distance=0).get_site_location()[1]
 
-    def api_case(self, mol, max_n, name, out_bam, cap=None, hist_k=None):
+    def api_case(self, mol, max_n, name, out_bam, cap=None, hist_k=None, wp=None):
         """-> list of (record name, exception name or None, site, associated fragments, fragments added so far).
         hist_k: history consensus -> add -> consensus on ONE molecule object: the writer is called after the first hist_k
         fragments and again after the remaining ones were added."""
@@ -172,9 +180,12 @@ class Env:
             # molecule may start at slightly different places and the molecule then moves its site)
             site = m.get_cut_site()[1]
             try:
-                recs = m.deduplicate_majority(out_bam, label, max_N_span=max_n)
-                for r in recs:
-                    out_bam.write(r)
+                if wp is None:
+                    recs = m.deduplicate_majority(out_bam, label, max_N_span=max_n)
+                    for r in recs:
+                        out_bam.write(r)
+                else:   # the other public entry: Molecule.write_pysam(consensus=True) writes the records (and the source reads) itself
+                    m.write_pysam(out_bam, consensus=True, no_source_reads=(wp == 'nosrc'), consensus_name=label)
                 out.append((label, None, site, len(m), n_added))
             except Exception as ex:   # a crash of the code under test is an observation
                 out.append((label, type(ex).__name__, site, len(m), n_added))
@@ -205,7 +216,8 @@ def run_api(env, emit, items, tid0, tag):
         for k, item in enumerate(items):
             cap = item[2] if len(item) > 2 else None
             hist_k = item[3] if len(item) > 3 else None
-            results[k] = env.api_case(item[0], item[1], 'cons_%d' % k, out, cap, hist_k)
+            wp = item[4] if len(item) > 4 else None
+            results[k] = env.api_case(item[0], item[1], 'cons_%d' % k, out, cap, hist_k, wp)
     got = {}
     with pysam.AlignmentFile(path, check_sq=False) as f:
         for r in f:
@@ -222,6 +234,8 @@ def run_api(env, emit, items, tid0, tag):
             e = base_event(env.ref, sub, 'api' if hist_k is None or pre else 'api_hist', max_n, site, assoc, cap)
             if hist_k is not None and not pre:
                 e['hist_k'] = hist_k
+            if len(item) > 4 and item[4]:
+                e['wp'] = item[4]
             e['tid'] = tid
             tid += 1
             if raised:
@@ -295,7 +309,8 @@ def run_cli(env, emit, mols, no_source, with_ref, tid0, tag, cap=None):
             e['raised'] = raised
         else:
             lo, hi = e['ref']['start'], e['ref']['start'] + len(e['ref']['seq'])
-            mine = [k for k, c in enumerate(cons) if c['chrom'] == mol['chrom'] and lo <= c['start'] < hi]
+            mine = [k for k, c in enumerate(cons) if c['chrom'] == mol['chrom'] and lo <= c['start'] < hi
+                    and c['tags'].get('SM', mol['sample']) == mol['sample']]
             used.update(mine)
             e['records'] = [cons[k] for k in mine]
         emit(e)
@@ -322,7 +337,7 @@ def main():
                        'umi': e['mol']['RX'], 'bc': e['desc']['bc']}
                 cap = e.get('cap') or None
                 if e['via'] in ('api', 'api_hist'):
-                    run_api(env, emit, [(mol, None if e['maxN'] < 0 else e['maxN'], cap, e.get('hist_k'))], 1, 'replay')
+                    run_api(env, emit, [(mol, None if e['maxN'] < 0 else e['maxN'], cap, e.get('hist_k'), e.get('wp'))], 1, 'replay')
                 else:
                     run_cli(env, emit, [mol], e['via'] == 'cli_nosrc', e.get('with_ref', True), 1, 'replay', cap)
                 return
@@ -330,23 +345,44 @@ def main():
             n_api = 300 if tier == "quick" else 15000
             batch = []
             for k in range(n_api):
-                mol = gen_molecule(rng, env.ref, rng.randint(500, 100000), rng.choice(['chr1', 'chr2']))
+                edge = rng.random()
+                if edge < 0.04:      # first mates start at reference position 0 (site -2: a negative tag value)
+                    mol = gen_molecule(rng, env.ref, 0, rng.choice([c for c, _ in molgen.CONTIGS]), same_start=True, force_rev=False)
+                elif edge < 0.08:    # reverse first mates end exactly at the contig end
+                    mol = gen_molecule(rng, env.ref, len(env.ref), rng.choice([c for c, _ in molgen.CONTIGS]), same_start=True, force_rev=True)
+                else:
+                    mol = gen_molecule(rng, env.ref, rng.randint(500, 100000), rng.choice([c for c, _ in molgen.CONTIGS]))
                 n = len(mol['frags'])
                 # every fifth molecule of >= 2 fragments exceeds a configured max_associated_fragments
                 cap = rng.randint(1, n - 1) if n >= 2 and rng.random() < 0.35 else None
                 # history consensus -> add -> consensus on one object (uncapped molecules of >= 2 fragments)
                 hist_k = rng.randint(1, n - 1) if cap is None and n >= 2 and rng.random() < 0.5 else None
-                batch.append((mol, rng.choice([None, None, 0, 1, 3, 10, 300]), cap, hist_k))
+                wp = rng.choice(['src', 'nosrc']) if rng.random() < 0.15 else None     # Molecule.write_pysam(consensus=True) entry
+                batch.append((mol, None if wp else rng.choice([None, None, 0, 1, 3, 10, 300]), cap, hist_k, wp))
             tid = run_api(env, emit, batch, tid, 'a')
             n_cli = 4 if tier == 'quick' else 60
             for k in range(n_cli):
-                mols, site = [], {c: 1000 for c in ('chr1', 'chr2')}
+                mols, site = [], {c: 1000 for c, _ in molgen.CONTIGS}
                 for _ in range(rng.randint(1, 6)):
-                    chrom = rng.choice(['chr1', 'chr2'])
+                    chrom = rng.choice([c for c, _ in molgen.CONTIGS])
                     site[chrom] += rng.randint(3000, 9000)
                     mols.append(gen_molecule(rng, env.ref, site[chrom], chrom, same_start=True, max_frags=4))
-                for i, m in enumerate(mols):   # distinct UMIs: molecules are told apart by position anyway
+                if rng.random() < 0.5:
+                    # a second cell with a molecule at exactly the same place and with the same UMI (equal keys but for the sample)
+                    twin = json.loads(json.dumps(mols[0]))
+                    twin['sample'] = 'cell9'
+                    for fr in twin['frags']:
+                        for mt in (fr.get('r1'), fr.get('r2')):
+                            if mt is not None and mt['seq'][0] != 'N':
+                                mt['seq'][0] = 'ACGT'[('ACGT'.index(mt['seq'][0]) + 1) % 4]
+                    mols.append(twin)
+                    twin_of_first = True
+                else:
+                    twin_of_first = False
+                for i, m in enumerate(mols[:len(mols) - (1 if twin_of_first else 0)]):   # distinct UMIs: molecules are told apart by position anyway
                     m['umi'] = 'ACGT'[i % 4] + m['umi'][1:]
+                if twin_of_first:
+                    mols[-1]['umi'] = mols[0]['umi']
                 cap = None
                 if k % 4 == 2:
                     # capped run: which fragments a molecule accepts depends on the tagger's read order, so every fragment of a
